@@ -1243,7 +1243,9 @@ def _add_tempo_if_unique(position, part, tempo):
 
 def _handle_sound(e, position, part):
     if "tempo" in e.attrib:
-        tempo = score.Tempo(int(e.attrib["tempo"]), "q")
+        # (the attribute is a decimal number: 63 eighths a minute are 31.5 quarters)
+        bpm = float(e.attrib["tempo"])
+        tempo = score.Tempo(int(bpm) if bpm == int(bpm) else bpm, "q")
         _add_tempo_if_unique(position, part, tempo)
 
 
